@@ -127,6 +127,42 @@ def localize(a, b):
         a, b = ka[diff[0]], kb[diff[0]]
 
 
+def fold_tolerance(b, env):
+    """The property allows 'rounding of folded constants': every constant of the result may be half an ulp away from the
+    exact fold.  First-order bound on what that can change in b's value at env: twice the sum, over b's constants, of
+    the change caused by moving that constant by one ulp (2^-52 relative).  0 when b has no constants."""
+    consts = []
+
+    def lift(u):
+        if u[0] == "const":
+            v = u[1]
+            if isinstance(v, (int, float)) and v == v and abs(v) != float("inf") and v != 0:
+                consts.append(v)
+                return ("var", f"__c{len(consts) - 1}")
+            return u
+        if u[0] == "var":
+            return u
+        return M.with_children(u, [lift(c) for c in M.children(u)])
+
+    lifted = lift(b)
+    if not consts:
+        return mpf(0)
+    with mp.workprec(HP):
+        base = {k: mpf(v) for k, v in env.items()}
+        for i, c in enumerate(consts):
+            base[f"__c{i}"] = mpf(c)
+        try:
+            v0 = RS.hp_eval(lifted, base)
+            total = mpf(0)
+            for i, c in enumerate(consts):
+                e2 = dict(base)
+                e2[f"__c{i}"] = mpf(c) * (1 + mpf(2) ** -52)
+                total += abs(RS.hp_eval(lifted, e2) - v0)
+        except RS.Undefined:
+            return mpf(0)
+        return 2 * total
+
+
 def sem_compare(a, b, grid_vars=None):
     """Problems with 'b is defined wherever a is and has the same value' ([] = fine).
 
@@ -156,7 +192,10 @@ def sem_compare(a, b, grid_vars=None):
         judged += 1
         if ra.fx is not None and rb.fx is not None:
             if ra.fx != rb.fx:
-                problems.append(f"value changes at {env}: {ra.fx} -> {rb.fx}")
+                with mp.workprec(HP):
+                    diff = abs(mpf(ra.fx.numerator) / mpf(ra.fx.denominator) - mpf(rb.fx.numerator) / mpf(rb.fx.denominator))
+                if diff > fold_tolerance(b, env):
+                    problems.append(f"value changes at {env}: {ra.fx} -> {rb.fx}")
             continue
         with mp.workprec(HP):
             ha = RS.hp_value(a, env, HP)
@@ -168,7 +207,7 @@ def sem_compare(a, b, grid_vars=None):
             wa = RS.iv_width(ra.fi) if ra.fx is None else mpf(0)
             wb = RS.iv_width(rb.fi) if rb.fx is None else mpf(0)
             tol = 4 * (wa + wb) + mpf(2) ** -45 * (abs(ha) + abs(hb)) + mpf(2) ** -160
-            if abs(ha - hb) > tol:
+            if abs(ha - hb) > tol and abs(ha - hb) > tol + fold_tolerance(b, env):
                 problems.append(f"value changes at {env}: {mpmath.nstr(ha, 17)} -> {mpmath.nstr(hb, 17)}")
     if not problems and RF.in_fragment(a) and RF.in_fragment(b) and M.size(a) <= 40 and M.size(b) <= 40:
         qa, qb = RF.rat_of(a), RF.rat_of(b)
@@ -601,6 +640,10 @@ def start_items(tier):
         items.append(("SCALE", t, False, M.size(t) <= 8))
     for t in F.vanish_terms(tier):
         items.append(("VANISH", t, False, M.size(t) <= 8))
+    for t in F.param_layer_terms(tier):
+        items.append(("PLAYER", t, False, True))
+    for t in F.twins_terms(tier):
+        items.append(("TWINS", t, False, M.size(t) <= 8))
     for t in F.twice_terms(tier):
         items.append(("TWICE", t, False, M.size(t) <= 8))
         items.append(("TWICE-DAG", t, True, False))
